@@ -65,7 +65,7 @@ def c09(cx):
              'character is not one the scanner would treat as an escape / section boundary); structural R-HEX-SINK '
              'and R-RESTORE. Decides where sections begin and end, not the unquoted content.')
 def c07(cx):
-    lea_glue.apply(cx, ["R-SECTION", "R-PRECONSUME"])
+    lea_glue.apply(cx, ["R-SECTION", "R-PRECONSUME", "R-PAYLOAD-ESCAPE"])
     fx = cx.facts("dev-none-stable")
     rules_struct.r_hex_sink(cx, fx)
     rules_struct.r_restore(cx, fx)
